@@ -788,6 +788,8 @@ pub fn op_strategy(o: GenOpts) -> impl Strategy<Value = Op> {
     // (lead bytes C2, DF, E0, E1, EF, F0, F4)
     let mut chars = vec![
         'a', 'b', 'g', 'e', 't', 'x', 'h', 'l', 'p', 's', ' ', ' ', '-', '-', 'é', 'Ж', 'г', '₿', '𝄞', '1', '5', '¡', 'ߪ', 'ࠀ', 'ก', 'က', '\u{fffd}', '𐀀', '\u{10fffd}', 'à', 'х', 'Р',
+        // blanks other than U+0020 (no-break space, em space): ordinary characters of width 1 for the editor, the tokeniser and Tab
+        '\u{a0}', '\u{2003}',
     ];
     if o.quotes {
         chars.extend(['"', '"', '\\']);
@@ -919,7 +921,13 @@ pub fn tab_session_strategy(with_api: bool) -> impl Strategy<Value = Case> {
                                 ops.push(Op::Backspace);
                             }
                         }
-                        ops.push(Op::Text(format!("{}{}{}", " ".repeat(lead), pick(&words, w), " ".repeat(trail))));
+                        // (one line in eight ends in a blank that is not U+0020: an ordinary character to everything)
+                        let tail = match w % 16 {
+                            7 => format!("\u{a0}{}", " ".repeat(trail)),
+                            11 => format!("{}\u{2003}", " ".repeat(trail)),
+                            _ => " ".repeat(trail),
+                        };
+                        ops.push(Op::Text(format!("{}{}{}", " ".repeat(lead), pick(&words, w), tail)));
                         for _ in 0..lefts {
                             ops.push(Op::Left);
                         }
